@@ -11,8 +11,8 @@ use serde_json::{json, Value};
 use std::io::Write;
 use std::sync::Arc;
 
-pub const COMPANIONS: [u32; 13] = [
-    0x61, 0x41, 0x200c, 0x200d, 0x0628, 0x0375, 0x05f3, 0x30fb, 0x05d0, 0x0661, 0x20, 0xa0, 0xff21,
+pub const COMPANIONS: [u32; 17] = [
+    0x61, 0x41, 0x200c, 0x200d, 0x0628, 0x0375, 0x05f3, 0x30fb, 0x05d0, 0x0661, 0x20, 0xa0, 0xff21, 0xb7, 0x6c, 0x0660, 0x06f0,
 ];
 
 fn rel(cp: u32, v: &[u32]) -> Value {
@@ -93,6 +93,13 @@ pub fn obs_of(o: &Oracle, cp: u32) -> Value {
         "greek": ctx_obs("keraia", &[0x0375, cp], 0),
         "hebrew": ctx_obs("hebrew", &[cp, 0x05f3], 1),
         "kana": ctx_obs("katakana", &[0x30fb, cp], 0),
+        // literal comparisons of the rules: every code point as the neighbour / member they test
+        "mdl": ctx_obs("middle_dot", &[cp, 0xb7, 0x6c], 1),
+        "mdr": ctx_obs("middle_dot", &[0x6c, 0xb7, cp], 1),
+        "aidx": ctx_obs("arabic_indic", &[0x0660, cp], 0),
+        "eaidx": ctx_obs("ext_arabic_indic", &[0x06f0, cp], 0),
+        // every rule on the one-character label [c] at offset 0: is the character the rule's own?
+        "own": CTX_RULES.iter().map(|r| ctx_obs(r, &[cp], 0)).collect::<Vec<Value>>(),
         "ld": ctx_obs("zwnj", &[cp, 0x200c, 0x0628], 1),
         "rd": ctx_obs("zwnj", &[0x0628, 0x200c, cp], 1),
         "wm": [one("UCM", "width_mapping_rule", &[cp]), one("UCP", "width_mapping_rule", &[a, cp]), one("UCM", "width_mapping_rule", &[cp, a]),
